@@ -52,13 +52,14 @@ const (
 	KYield   Kind = 18
 	KClient  Kind = 19 // harness-level operation boundary (Invoke/Return)
 	KRange   Kind = 20 // receive performed by a woven `for range ch`
+	KAwait   Kind = 21 // harness client waiting for a Signal
 )
 
 var kindNames = map[Kind]string{
 	KSend: "send", KRecv: "recv", KClose: "close", KSelSend: "selsend", KSelRecv: "selrecv",
 	KLock: "lock", KUnlock: "unlock", KRLock: "rlock", KRUnlock: "runlock",
 	KWgAdd: "wgadd", KWgDone: "wgdone", KWgWait: "wgwait", KOnce: "once", KAtomic: "atomic",
-	KSpawn: "spawn", KStart: "start", KIO: "io", KYield: "yield", KClient: "client", KRange: "recv",
+	KSpawn: "spawn", KStart: "start", KIO: "io", KYield: "yield", KClient: "client", KRange: "recv", KAwait: "await",
 }
 
 func (k Kind) String() string {
@@ -154,6 +155,9 @@ func (p pending) describe() string {
 	if p.kind == KClient {
 		return "client:" + p.label
 	}
+	if p.kind == KAwait {
+		return "await:" + p.label
+	}
 	return p.kind.String()
 }
 
@@ -205,9 +209,11 @@ type Config struct {
 	KeepLog  bool // keep the textual event log (replay, self-test)
 	Record   bool // keep the enabled set of every step (replay files)
 	NoHB     bool // switch the happens-before monitor off
-	// FaultKinds restricts which I/O kinds count towards ordinals that can be
-	// faulted; nil = all kinds are numbered.
-	Expect [][]int // replay: expected enabled sets, checked step by step
+	// FaultKinds restricts which I/O kinds a fault may hit: a FaultSpec whose
+	// ordinal lands on another kind (possible when a fault position learnt in
+	// one schedule is paired with a different schedule) does not fire.
+	FaultKinds map[string]bool
+	Expect     [][]int // replay: expected enabled sets, checked step by step
 }
 
 // Sim is one simulated run.
@@ -253,6 +259,8 @@ type Sim struct {
 
 	idChecks int
 	paranoid bool
+
+	signals map[string]*VC
 }
 
 type clientSpec struct {
@@ -299,6 +307,7 @@ func New(cfg Config) *Sim {
 		labels:  map[uintptr]int{},
 		faultAt: map[int]FaultSpec{},
 		marks:   map[string]int{},
+		signals: map[string]*VC{},
 		Probes:  map[string]int{},
 		Races:   map[string]*Violation{},
 		hash:    h,
@@ -839,6 +848,10 @@ func (s *Sim) enabledLocked() []*G {
 				if ls.owner != nil {
 					continue
 				}
+			case KAwait:
+				if s.signals[p.label] == nil {
+					continue
+				}
 			}
 		}
 		en = append(en, g)
@@ -906,7 +919,7 @@ func (s *Sim) release(g *G) {
 			s.ioN++
 			rec := IORecord{Ordinal: ord, Kind: p.ioKind, Site: p.site, G: g.ID, Step: s.steps}
 			g.ioMode, g.ioErr = 0, nil
-			if f, ok := s.faultAt[ord]; ok {
+			if f, ok := s.faultAt[ord]; ok && (s.cfg.FaultKinds == nil || s.cfg.FaultKinds[p.ioKind]) {
 				rec.Faulted = true
 				g.ioErr = &Fault{Kind: p.ioKind, Ordinal: ord, After: f.After}
 				if f.After {
@@ -920,6 +933,10 @@ func (s *Sim) release(g *G) {
 			s.IOLog = append(s.IOLog, rec)
 		case KClient:
 			g.stamp = 2 * s.steps
+		case KAwait:
+			if vc := s.signals[p.label]; vc != nil {
+				g.vc.join(*vc)
+			}
 		}
 	}
 	if p.phase == phPre && p.kind == KStart && !g.Client {
@@ -1009,6 +1026,29 @@ func (s *Sim) Return(label string) int {
 	}
 	s.park(g, pending{phase: phPost, kind: KClient, site: label, label: label})
 	return g.stamp
+}
+
+// Signal and Await synchronise harness clients with each other. Clients must
+// not use raw channels or locks for that: a client woken outside the
+// scheduler's control would run concurrently with the released goroutine.
+func (s *Sim) Signal(name string) {
+	g := s.lookup()
+	s.mu.Lock()
+	vc := VC{}
+	if g != nil {
+		vc = g.vc.copy()
+		g.vc.tick(g.ID)
+	}
+	s.signals[name] = &vc
+	s.mu.Unlock()
+}
+
+func (s *Sim) Await(name string) {
+	g := s.lookup()
+	if g == nil {
+		return
+	}
+	s.park(g, pending{phase: phPre, kind: KAwait, site: "await:" + name, label: name})
 }
 
 // Abort ends the calling client goroutine without counting as a panic.
